@@ -1,5 +1,6 @@
 """C10 - rate limiting bounds admitted requests per address in every window"""
 import asyncio as _asyncio
+import time as _time
 import copy
 
 import z3
@@ -8,8 +9,8 @@ import nauyaca.protocol.request  # noqa: F401
 import nauyaca.server.middleware as mw
 from nauyaca.server.middleware import RateLimitConfig, RateLimiter, TokenBucket
 
-from vf import Ob, V, internal, pick
-from vf.py2smt import Unsupported, find_comprehension_filter, has_await, merge, run_function, Interp
+from vf import Ob, V, bind, internal, pick, release
+from vf.py2smt import Eviction, Unsupported, has_await, merge, run_function, Interp
 from vf.smt import decide, frac
 from vf.stubs import drive as _drive
 
@@ -51,8 +52,7 @@ def _terms():
 
 def _real_step(C, r, tok, last, now):
     clk = _Clock(last)
-    old = mw.time
-    mw.time = clk
+    bind(mw, _time, clk)
     try:
         b = TokenBucket(int(C) if float(C).is_integer() else C, r)
         b.tokens = tok
@@ -61,7 +61,7 @@ def _real_step(C, r, tok, last, now):
         adm = b.consume()
         return adm, b.tokens, b.last_update
     finally:
-        mw.time = old
+        release(mw, _time)
 
 
 def _smt_result(recs, verdict, message="", **kw):
@@ -160,12 +160,12 @@ def window_k():
     return _smt_result(recs, v)
 
 
-def _evict_pred(env):
-    test, gen = find_comprehension_filter(RateLimiter._cleanup_loop, "self.buckets")
-    if test is None:
-        return z3.BoolVal(True)
-    it = Interp(env)
-    return it.truth(it.expr(test, env))
+def _evict_pred(state, t2, C, r):
+    """eviction condition of the clean-up loop for a bucket in ``state`` when the clock reads t2 (regenerated from the
+    source of _cleanup_loop and whatever helpers it calls)"""
+    ev = Eviction(RateLimiter._cleanup_loop, "self.buckets", calls={"time.monotonic": lambda: t2})
+    attrs = {k[5:]: v for k, v in state.items()}
+    return ev.predicate(attrs, {"self.config.capacity": C, "self.config.refill_rate": r})
 
 
 def _bucket_state(prefix, C, r, tok, last, t_init):
@@ -202,17 +202,11 @@ def cleanup_neutral():
     state, fresh = _bucket_state("aux_", C, r, tok, last, t1)
     adm, post = _consume_from(state, t1)
 
-    def env_of(st):
-        e = {"now": t2, "self.config.capacity": C, "self.config.refill_rate": r}
-        for k, v in st.items():
-            e["bucket." + k[5:]] = v
-        return e
-
     def refill(st):
         tk, ls = st["self.tokens"], st["self.last_update"]
         return z3.If(C <= tk + (t2 - ls) * r, C, tk + (t2 - ls) * r)
-    ev_post = _evict_pred(env_of(post))
-    ev_fresh = _evict_pred(env_of(fresh))
+    ev_post = _evict_pred(post, t2, C, r)
+    ev_fresh = _evict_pred(fresh, t2, C, r)
     recs = [
         decide("cleanup neutral after a consume(): evict => refilled allowance == capacity", [pre, ev_post, z3.Not(refill(post) == C)], TMO),
         decide("cleanup neutral for a fresh bucket", [pre, ev_fresh, z3.Not(refill(fresh) == C)], TMO),
@@ -240,8 +234,7 @@ def replay_cleanup(C, r, tok, last, t1, t2):
     import math
     cap = int(math.ceil(C))
     clk = _Clock(last)
-    old_time, old_asyncio = mw.time, mw.asyncio
-    mw.time = clk
+    bind(mw, _time, clk)
 
     class _FA:
         calls = 0
@@ -251,9 +244,7 @@ def replay_cleanup(C, r, tok, last, t1, t2):
             if _FA.calls > 1:
                 raise _asyncio.CancelledError()
 
-        def __getattr__(self, n):
-            return getattr(_asyncio, n)
-    mw.asyncio = _FA()
+    bind(mw, _asyncio, _FA())
     try:
         def mk():
             clk.now = last
@@ -267,7 +258,7 @@ def replay_cleanup(C, r, tok, last, t1, t2):
             clk.now = t2
             return rl
         with_cleanup = mk()
-        co = with_cleanup._cleanup_loop()
+        co = internal(with_cleanup, "_cleanup_loop")()
         try:
             co.send(None)
         except (StopIteration, _asyncio.CancelledError):
@@ -281,7 +272,8 @@ def replay_cleanup(C, r, tok, last, t1, t2):
             a2 += 1 if ok else 0
         return a1 <= a2          # False: clean-up handed out extra allowance
     finally:
-        mw.time, mw.asyncio = old_time, old_asyncio
+        release(mw, _time)
+        release(mw, _asyncio)
 
 
 def fp_side():
@@ -342,9 +334,62 @@ def translate_valid():
         ztf = frac(zt.as_decimal(20)) if hasattr(zt, "as_decimal") else float(str(zt))
         if za != adm or abs(ztf - t2) > 1e-6:
             bad.append(((C, r, tok, last, now), (adm, t2), (za, ztf)))
-    return {"state": "DIFF", "verdict": "confirmed" if not bad else "harness-error", "queries": len(pts), "paths": len(pts),
+    # the eviction predicate extracted from _cleanup_loop vs one real pass of the loop body
+    C_, r_, tok_, last_, t2_ = z3.Reals("vC vr vtok vlast vt2")
+    state, _fresh = _bucket_state("v_", C_, r_, tok_, last_, last_)
+    pred = _evict_pred(state, t2_, C_, r_)
+    npred = 0
+    for C in (1, 3):
+        for r in (0.001953125, 0.5, 4.0):
+            for tok in (0.0, 0.5, float(C)):
+                for dt in (0.0, 1.0, 599.0, 601.0, 650.0, 1300.0, 100000.0):
+                    exact = tok + dt * r
+                    if abs(exact - C) < 1e-9 or abs(dt - 600.0) < 1e-9:
+                        continue
+                    npred += 1
+                    real = _real_evicted(C, r, tok, 100.0, 100.0 + dt)
+                    sub = [(C_, z3.RealVal(C)), (r_, z3.RealVal(repr(r))), (tok_, z3.RealVal(repr(tok))),
+                           (last_, z3.RealVal(repr(100.0))), (t2_, z3.RealVal(repr(100.0 + dt)))]
+                    aux = [(v, z3.RealVal(0)) for k, v in state.items() if str(v).startswith("v_")]
+                    zp = z3.is_true(z3.simplify(z3.substitute(pred, *(sub + aux))))
+                    if zp != real:
+                        bad.append((("evict", C, r, tok, dt), real, zp))
+    return {"state": "DIFF", "verdict": "confirmed" if not bad else "harness-error", "queries": len(pts) + npred,
+            "paths": len(pts) + npred,
             "message": "" if not bad else "translation disagrees with the real method: %r" % (bad[:2],),
-            "samples": [{"points": len(pts), "example": pts[7]}]}
+            "samples": [{"points": len(pts), "eviction_points": npred, "example": pts[7]}]}
+
+
+def _real_evicted(C, r, tok, last, t2):
+    """one real pass of the clean-up loop body at clock t2 over a single bucket (tok, last): was it dropped?"""
+    clk = _Clock(last)
+    bind(mw, _time, clk)
+
+    class _FA:
+        calls = 0
+
+        async def sleep(self, d):
+            _FA.calls += 1
+            if _FA.calls > 1:
+                raise _asyncio.CancelledError()
+
+    bind(mw, _asyncio, _FA())
+    try:
+        rl = RateLimiter(RateLimitConfig(capacity=C, refill_rate=r))
+        b = TokenBucket(C, r)
+        b.tokens = tok
+        b.last_update = last
+        internal(rl, "buckets")["203.0.113.9"] = b
+        clk.now = t2
+        co = internal(rl, "_cleanup_loop")()
+        try:
+            co.send(None)
+        except (StopIteration, _asyncio.CancelledError):
+            pass
+        return "203.0.113.9" not in internal(rl, "buckets")
+    finally:
+        release(mw, _time)
+        release(mw, _asyncio)
 
 
 def no_await():
@@ -370,7 +415,7 @@ def isolation(a: int, b: int, ta: int, tb: int, ri: int, fresh_b: bool) -> bool:
     post: _
     """
     clk = _Clock(50.0)
-    mw.time = clk
+    bind(mw, _time, clk)
     rl = RateLimiter(RateLimitConfig(capacity=3, refill_rate=0.5, retry_after=RETRY[ri]))
     ba = TokenBucket(3, 0.5)
     ba.tokens = TOKS[ta]
